@@ -178,7 +178,7 @@ def job_entries(L, N, use_obliquity, sync, totals):
     if n_entries == 0:
         raise RuntimeError('calculate_terms returned no entries (vacuous)')
     # batches keep individual queries small
-    B_ = 40
+    B_ = 10 if (use_obliquity and N >= 14) else 40
     for i in range(0, len(goals_id), B_):
         results.append(discharge(Obligation('%s: per-entry heating_term == n*dUdM_term - spin*dUdO_term (entries %d..%d of %d)' % (tag, i, min(i + B_, len(goals_id)) - 1, len(goals_id)),
                                             z3.And(*goals_id[i:i + B_]), A, replay=api_replay(L, N, use_obliquity, sync, 'identity'), key='entry-identity:%s' % tag,
